@@ -10,7 +10,15 @@ use std::collections::HashSet;
 use std::hash::{BuildHasher, Hash};
 use std::sync::Arc;
 use std::sync::atomic::{AtomicBool, Ordering};
+#[cfg(not(excsn_fibre_verif))]
 use std::thread::{self, JoinHandle};
+#[cfg(excsn_fibre_verif)]
+use fibre_verif_rt::thread::{self, JoinHandle};
+// The janitor's signal channel: std's in normal builds, the simulator's stand-in otherwise.
+#[cfg(not(excsn_fibre_verif))]
+pub(crate) use std::sync::mpsc as signal_mpsc;
+#[cfg(excsn_fibre_verif)]
+pub(crate) use fibre_verif_rt::mpsc as signal_mpsc;
 use std::time::Duration;
 
 /// The number of entries to sample from each shard on an expiration cleanup tick.
@@ -57,7 +65,7 @@ impl Janitor {
     context: JanitorContext<K, V, H>,
     tick_interval: Duration,
     maintenance_probability_denominator: u32,
-    signal_rx: std::sync::mpsc::Receiver<usize>,
+    signal_rx: signal_mpsc::Receiver<usize>,
   ) -> Self
   where
     K: Eq + Hash + Clone + Send + Sync + 'static,
@@ -68,7 +76,7 @@ impl Janitor {
     let stop_clone = stop_flag.clone();
 
     let handle = thread::spawn(move || {
-      use std::sync::mpsc::RecvTimeoutError;
+      use signal_mpsc::RecvTimeoutError;
       loop {
         if stop_clone.load(Ordering::Relaxed) {
           break;
@@ -102,7 +110,7 @@ impl Janitor {
   fn signaled_maintenance<K, V, H>(
     context: &JanitorContext<K, V, H>,
     first: usize,
-    signal_rx: &std::sync::mpsc::Receiver<usize>,
+    signal_rx: &signal_mpsc::Receiver<usize>,
   ) where
     K: Eq + Hash + Clone + Send + Sync + 'static,
     V: Send + Sync + 'static,
